@@ -17,7 +17,7 @@ import (
 
 func init() {
 	Register("C05", &Scenario{Name: "posters-random", Weight: 10, Run: func(c *Ctx, v int) { runC05(c, -1) }})
-	Register("C05", &Scenario{Name: "post-directed", Directed: 4, Run: func(c *Ctx, v int) { runC05(c, v) }})
+	Register("C05", &Scenario{Name: "post-directed", Directed: 5, Run: func(c *Ctx, v int) { runC05(c, v) }})
 }
 
 var (
@@ -26,6 +26,7 @@ var (
 	c05pWoken         = sim.RegStat("probe:c05-blocking-wait-returned-after-post")
 	c05pInexactWindow = sim.RegStat("probe:c05-pending-read-in-handler-with-a-post-in-progress")
 	c05pConcurrent    = sim.RegStat("probe:c05-post-between-loop-lock-and-unlock")
+	c05pBacklog       = sim.RegStat("probe:c05-backlog-of-more-than-1024-handlers-before-a-poll")
 )
 
 type c05Stream struct { // one per posting task (index = task id)
@@ -240,6 +241,8 @@ func runC05(c *Ctx, variant int) {
 		nPosters, d.nestMax = 2, 3
 	case 3:
 		nPosters, d.nestMax = 4, 1
+	case 4: // a backlog far larger than anything one dispatch might want to take at once
+		nPosters, d.nestMax = 1, 0
 	}
 	if variant >= 0 && variant != 0 && c.Avoid["post-from-posted-handler"] {
 		d.nestMax = 0
@@ -266,6 +269,13 @@ func runC05(c *Ctx, variant int) {
 	if variant == 0 {
 		d.post(0)
 		d.post(0)
+	}
+	if variant == 4 || (variant < 0 && w.Chance(1, 30)) {
+		// nothing bounds the number of handlers queued between two polls
+		w.Stat(c05pBacklog)
+		for i, n := 0, w.Pick(1500, 1025, 2049, 5000); i < n; i++ {
+			d.post(0)
+		}
 	}
 	// the loop
 	for i := 0; ; i++ {
